@@ -38,7 +38,7 @@ REQUIRED_MONITORS = ["matrix-vs-dense-reference", "vector-vs-dense-reference", "
                      "linearform-equals-Au", "functional-vs-own-sum", "interpolate-vs-own", "elemental-sums",
                      "shape-test-by-trial", "kwarg-spellings-bitwise", "threaded-equals-serial", "complex-dtype",
                      "trilinear-contraction", "with-element-same-domain"]
-REQUIRED_REACH = ["kwarg:updated-in-place", "basis:cell", "basis:cell-subset", "basis:facet-boundary", "basis:facet-subset",
+REQUIRED_REACH = ["kwarg:updated-in-place", "kwarg:overrides-default", "basis:cell", "basis:cell-subset", "basis:facet-boundary", "basis:facet-subset",
                   "basis:facet-interior-side1", "basis:interior-side0", "basis:interior-side1", "trial!=test",
                   "kwarg:dofvector", "kwarg:discretefield", "kwarg:rawarray", "kwarg:scalar", "coef:n", "coef:h", "coef:x"]
 
@@ -299,6 +299,10 @@ def one_case(ctx, k, kind):
     # scalar coefficient over 30 orders of magnitude (physical constants, micro-scale domains): entries far below 1
     # are entries, not rounding noise
     kwargs = {"coef_s": float(rng.integers(1, 9)) / 4 * float(2.0 ** rng.choice([0, 0, -50, -25, 30]))}
+    # a caller's parameter named like a default one (h) replaces the default, identically in all three form types
+    if any(c[0] == "h" for c, _, _ in terms) and k % 3 == 1:
+        kwargs["h"] = 0.75
+        ctx.reached("kwarg:overrides-default")
     uses_field = any(c[0] == "field" for c, _, _ in terms)
     if uses_field:
         kwargs["coef_f"] = ub.interpolate(z)
